@@ -19,6 +19,9 @@ DROPPED_CALLS = {'print', 'print_timing', 'update_timer', 'warnings.warn', 'time
                  'time.sleep', 'gc.collect'}
 
 
+IMPLICIT_EXCEPTIONS = {'KeyError', 'IndexError', 'ValueError', 'ZeroDivisionError', 'TypeError',
+                       'AttributeError', 'UnboundLocalError', 'AssertionError'}
+
 FSTRING_HOOKS = {}      # f-string template ('unmapped_{}_{}') -> handler(ev, state, part values) -> SymVal | None
 
 
@@ -76,6 +79,16 @@ class Ctx:
         if self.spec_mode:
             return
         if z3.is_true(goal):
+            return
+        if kind in IMPLICIT_EXCEPTIONS and assume and self.contract is not None and \
+                any(exc_is(kind, exc) for exc in self.contract.raises):
+            # an implicit exception of a type the contract lists in `raises` is a raise *path*
+            # (checked against the stated condition at function exit), not a safety obligation
+            self.pending.append(PendingRaise(kind, list(state.pc) + list(self.guards) + [z3.Not(goal)]))
+            if not self.guards:
+                state.assume(goal)
+            else:
+                state.assume(z3.Implies(z3.And(*self.guards), goal))
             return
         lineno = getattr(node, 'lineno', 0)
         oid = f"{self.qualname}:{lineno}:{kind}:{next(self.ob_counter)}"
@@ -238,6 +251,8 @@ class Evaluator:
             bv = select(bv, ('some',))
         k = bv.ty[0]
         if k in ('list', 'arr'):
+            if isinstance(sl, ast.Tuple) and not sl.elts:
+                return None      # a[()] (h5py: read the whole dataset into a new array): not an l-value
             iv = self.eval(state, sl)
             if iv.ty[0] in ('list', 'arr'):
                 return None
@@ -486,6 +501,15 @@ class Evaluator:
             return self.unsupported(state, node, "list repetition")
         if a.ty == T.OPAQUE or b.ty == T.OPAQUE:
             raise Unsupported("arithmetic on abstracted value")
+        # Opt[number]: arithmetic on None is a TypeError (obligation), otherwise the number
+        if a.ty[0] == 'opt' and is_num(a.ty[1]) and is_num(b.ty if b.ty[0] != 'opt' else b.ty[1]):
+            ctx.oblige(state, z3.Not(T.opt_is_none(a.ty, a.term)), 'TypeError', node,
+                       'arithmetic operand is not None')
+            a = select(a, ('some',))
+        if b.ty[0] == 'opt' and is_num(b.ty[1]) and is_num(a.ty):
+            ctx.oblige(state, z3.Not(T.opt_is_none(b.ty, b.term)), 'TypeError', node,
+                       'arithmetic operand is not None')
+            b = select(b, ('some',))
         if not (is_num(a.ty) and is_num(b.ty)):
             if isinstance(op, ast.Add) and a.ty == T.NAME and b.ty == T.NAME:
                 r = fresh(T.NAME, 'strcat')
@@ -667,7 +691,9 @@ class Evaluator:
         terms = []
         for op, rn in zip(node.ops, node.comparators):
             right = self.eval(state, rn)
-            if left.ty[0] in ('arr', 'arr2') or right.ty[0] in ('arr', 'arr2'):
+            if (left.ty[0] in ('arr', 'arr2') or right.ty[0] in ('arr', 'arr2')) and not (
+                    isinstance(op, (ast.In, ast.NotIn, ast.Is, ast.IsNot)) and left.ty[0] not in ('arr', 'arr2')):
+                # (`x in arr`, `x is arr` with a scalar x are membership / identity, not element-wise)
                 if len(node.ops) != 1:
                     raise Unsupported("chained array comparison")
                 from . import numpy_prims
@@ -842,6 +868,17 @@ class Evaluator:
         if base.ty[0] == 'rec':
             if node.attr in T.RECORDS[base.ty[1]]:
                 return select(base, ('fld', node.attr))
+            alias = T.RECORD_META.get(base.ty[1], {}).get('aliases', {}).get(node.attr)
+            if alias is not None:
+                return select(base, ('fld', alias))
+            # @property with a contract: read = modular call of the getter
+            pc = self.ctx.registry.get_method(base.ty[1], node.attr)
+            if pc is not None and any(isinstance(d, ast.Name) and d.id == 'property'
+                                      for d in pc.fn_node().decorator_list):
+                from . import prims
+                fake = ast.copy_location(ast.Call(func=node, args=[], keywords=[]), node)
+                return prims.call_contract(self, state, fake, pc, pc.qualname,
+                                           receiver=(base, self.eval_ref(state, node.value)))
             raise Unsupported(f"record {base.ty[1]} has no declared field {node.attr}")
         from . import numpy_prims
         r = numpy_prims.attribute(self, state, base, node.attr, node)
